@@ -280,8 +280,9 @@ package node
 //@   requires @nonneg{C10} balNonNeg(Lbal)
 //@   requires @status statusInv(Lexec, Lrel, Lhist) && holdInv(Lhold, Lhist)
 //@   requires @held_in_window_unexecuted heldUnexecuted(Lhold, Lrel, Lrated, height)
+//@   requires @no_rates_above_synced{C12} forall h int :: h >= height ==> !Lrated[h]
 //@   requires @burn_parses validFA(GlobalBurnAddress)
-//@   modifies Lbal, Lsupply, Lrel, Lexec, LtoAmt, Lrefund, Lhist, Lhold, Lrated, Lrate, LbankPresent, LbankAmt, LbankUsed, LbankReq, d.LastAveragesData, d.LastAverages, d.LastAveragesHeight
+//@   modifies Lbal, Lsupply, Lrel, Lexec, LtoAmt, Lrefund, Lhist, Lhold, Lrated, Lrate, LbankPresent, LbankAmt, LbankUsed, LbankReq, LsnapCur, LsnapPast, LsnapInCur, LsnapInPast, d.LastAveragesData, d.LastAverages, d.LastAveragesHeight
 //@   let devDue = height >= config.V20DevRewardsHeightActivation && height % 144 == 0
 //@   // no block is reported as applied with an ignored failure: the ledger invariants hold whenever nil is returned
 //@   ensures @never_negative err == nil ==> balNonNeg(Lbal)
@@ -296,6 +297,8 @@ package node
 //@   ensures @fct_burns_iff err == nil && !((calls("GetAssetRates") + calls("GetAssetRatesV0") > old(calls("GetAssetRates") + calls("GetAssetRatesV0"))) && calls("InsertRates") == old(calls("InsertRates"))) ==> ((calls("ApplyFactoidBlock") == old(calls("ApplyFactoidBlock")) + 1) <==> height < config.V20HeightActivation)
 //@   ensures @fct_burns_only_before_v20 calls("ApplyFactoidBlock") <= old(calls("ApplyFactoidBlock")) + 1 && (calls("ApplyFactoidBlock") > old(calls("ApplyFactoidBlock")) ==> height < config.V20HeightActivation)
 //@   ensures @snapshot_only_on_cadence calls("SnapshotPayouts") <= old(calls("SnapshotPayouts")) + 1
+//@   ensures @no_rates_above_synced{C12} err == nil ==> (forall h int :: h > height ==> !Lrated[h])
+//@   ensures @recorded_rates_immutable{C12} err == nil ==> forall h int :: h != height ==> (Lrated[h] <==> old(Lrated)[h]) && Lrate[h] == old(Lrate)[h]
 //@   ensures @rates_at_most_once calls("InsertRates") <= old(calls("InsertRates")) + 1
 //@   // a block without rates executes no pending conversions
 //@   ensures @holding_needs_rates calls("ApplyTransactionBatchesInHolding") > old(calls("ApplyTransactionBatchesInHolding")) ==> calls("InsertRates") == old(calls("InsertRates")) + 1 && height >= config.TransactionConversionActivation
@@ -305,6 +308,16 @@ package node
 //@ // the holders' snapshot is taken before any balance change of the block (C14)
 //@ site-requires (*Pegnetd).SyncBlock | (*Pegnetd).SnapshotPayouts | 1
 //@   requires @snapshot_before_balance_changes calls("ApplyTransactionBatchesInHolding") == old(calls("ApplyTransactionBatchesInHolding")) && calls("ApplyTransactionBlock") == old(calls("ApplyTransactionBlock")) && calls("ApplyGradedOPRBlock") == old(calls("ApplyGradedOPRBlock")) && calls("ApplyGradedSPRBlock") == old(calls("ApplyGradedSPRBlock")) && calls("DevelopersPayouts") == old(calls("DevelopersPayouts")) && calls("ApplyFactoidBlock") == old(calls("ApplyFactoidBlock"))
+//@
+//@ // rates are recorded only for a block with winners, from the winning records, by the band rule of the height (C12)
+//@ site-requires (*Pegnetd).SyncBlock | (*github.com/pegnet/pegnetd/node/pegnet.Pegnet).InsertRates | 1
+//@   requires @winners_present gradedBlock != nil && len(winners) > 0 && height < config.V20HeightActivation
+//@ site-requires (*Pegnetd).SyncBlock | (*github.com/pegnet/pegnetd/node/pegnet.Pegnet).InsertRates | 2
+//@   requires @winners_present (len(oprWinners) > 0 || len(sprWinners) > 0) && height >= config.V20HeightActivation
+//@ site-requires (*Pegnetd).SyncBlock | (*Pegnetd).GetAssetRatesV0 | 1
+//@   requires @band_rule_of_the_height height >= config.V20HeightActivation && height < config.V20DevRewardsHeightActivation
+//@ site-requires (*Pegnetd).SyncBlock | (*Pegnetd).GetAssetRates | 1
+//@   requires @band_rule_of_the_height height >= config.V20DevRewardsHeightActivation
 //@
 //@ // ---- the sync loop (C02 C10) ---------------------------------------------------------------------
 //@ func (*Pegnetd).NullifyBurnAddress
@@ -413,7 +426,7 @@ package node
 //@
 //@ // valuation of a holder's stake: every non-PEG, non-zero balance (with usable rates from 2.0.2 on) is converted to pUSD at
 //@ // the block's spot rates, and nothing else is added (C14)
-//@ site-requires (*Pegnetd).SnapshotPayouts | conversions.Convert | 1
+//@ site-requires (*Pegnetd).SnapshotPayouts | github.com/pegnet/pegnetd/node/conversions.Convert | 1
 //@   requires @valuation_inputs i != fat2.PTickerPEG && validTicker(i) && amount == bal.Balances[i] && bal.Balances[i] != 0 && fromRate == rates[i] && fromAvg == rates[i] && toRate == rates[fat2.PTickerUSD] && toAvg == rates[fat2.PTickerUSD]
 //@   requires @zero_rates_skipped height >= config.V202EnhanceActivation ==> rates[i] != 0 && rates[fat2.PTickerUSD] != 0
 //@
@@ -431,6 +444,7 @@ package node
 //@   ensures @opr_only oprWinners != nil && sprWinners == nil ==> result1 == nil && result0 == oprWinners
 //@   ensures @spr_only oprWinners == nil && sprWinners != nil ==> result1 == nil && result0 == sprWinners
 //@   ensures @none oprWinners == nil && sprWinners == nil ==> result1 != nil
+//@   ensures @result_is_an_input_or_new result0 == oprWinners || result0 == sprWinners || len(result0) == 0 || fresh(result0)
 //@   ensures @different_lengths oprWinners != nil && sprWinners != nil && len(oprWinners) != len(sprWinners) ==> result1 != nil
 //@   ensures @band_rule_aligned oprWinners != nil && sprWinners != nil && result1 == nil && (forall i int :: 0 <= i && i < len(oprWinners) ==> oprWinners[i].Name == sprWinners[i].Name) ==> len(result0) == len(oprWinners) && (forall j int :: 0 <= j && j < len(oprWinners) ==> (inBand(oprWinners[j].Value, sprWinners[j].Value, tolAt(height)) ==> result0[j].Name == oprWinners[j].Name && result0[j].Value == oprWinners[j].Value) && (!inBand(oprWinners[j].Value, sprWinners[j].Value, tolAt(height)) ==> height >= config.V202EnhanceActivation && result0[j].Name == sprWinners[j].Name && result0[j].Value == 0))
 //@   ensures @out_of_band_is_an_error_before_2_0_2 oprWinners != nil && sprWinners != nil && len(oprWinners) == len(sprWinners) && height < config.V202EnhanceActivation && (exists i int :: 0 <= i && i < len(oprWinners) && oprWinners[i].Name == sprWinners[i].Name && !inBand(oprWinners[i].Value, sprWinners[i].Value, tolAt(height))) ==> result1 != nil
@@ -449,6 +463,7 @@ package node
 //@   ensures @opr_only len(oprWinners) > 0 && len(sprWinners) == 0 ==> result1 == nil && result0 == oprWinners
 //@   ensures @spr_only len(oprWinners) == 0 && len(sprWinners) > 0 ==> result1 == nil && result0 == sprWinners
 //@   ensures @none len(oprWinners) == 0 && len(sprWinners) == 0 ==> result1 != nil
+//@   ensures @result_is_an_input_or_new result0 == oprWinners || result0 == sprWinners || len(result0) == 0 || fresh(result0)
 //@   ensures @different_lengths len(oprWinners) > 0 && len(sprWinners) > 0 && len(oprWinners) != len(sprWinners) ==> result1 != nil
 //@   ensures @band_rule_aligned len(oprWinners) > 0 && len(sprWinners) > 0 && result1 == nil && (forall i int :: 0 <= i && i < len(oprWinners) ==> oprWinners[i].Name == sprWinners[i].Name) ==> len(result0) == len(oprWinners) && (forall j int :: 0 <= j && j < len(oprWinners) ==> inBand(oprWinners[j].Value, sprWinners[j].Value, tolV0(sprWinners[j].Value)) && result0[j].Name == oprWinners[j].Name && result0[j].Value == oprWinners[j].Value)
 //@   ensures @out_of_band_is_an_error len(oprWinners) > 0 && len(oprWinners) == len(sprWinners) && (exists i int :: 0 <= i && i < len(oprWinners) && oprWinners[i].Name == sprWinners[i].Name && !inBand(oprWinners[i].Value, sprWinners[i].Value, tolV0(sprWinners[i].Value))) ==> result1 != nil
